@@ -52,6 +52,13 @@ def run(ck, models, tier):
                       "destructor copies %s byte(s) from %s to %s; expected self.%s[..self.%s] -> self.%s" % (
                           fmt(cnt.e, 3), fmt(se, 4) if isinstance(se, E) else se, fmt(dst.e, 3), g.saved, g.len, g.addr), where(ev))
         ck.floor("R2.2", "restore-writes", nw, 1, tm.target)
+        # every normal path of the destructor restores (a conditional restore leaves the patch in place on the other edge)
+        for v in tm.variants(g.drop_fn):
+            if v.status == "returned":
+                n_ = len(code_writes(v))
+                ck.ob("R2.2", "every-destructor-path-restores" if n_ == 1 else "destructor-path-without-restore", tm.target, n_ == 1,
+                      "a normally returning path of the guard's destructor performs %d restoring write(s)%s" % (
+                          n_, "" if n_ == 1 else " [%s]" % fmt_dec(v)))
         # ---------------- R2.1 / R2.4 per install root
         roots = patches.roots_and_roles(tm)
         ck.floor("R2.1", "public-install-roots", len(roots), 6, tm.target)
@@ -78,6 +85,10 @@ def run(ck, models, tier):
                 nn += 1
                 pev, gv, cont = pg[0]
                 containers.add(cont)
+                cf, owner = container_field(cont)
+                inj_, field_, idx_, kind_ = injector_adt(tm, g.adt)
+                ck.ob("R2.4", "%s/stored-in-the-injector" % rn, tm.target, cf is not None and cf == field_,
+                      "the guard is pushed into %s (expected the injector's container `%s`)" % (fmt(cont, 5), field_), where(pev))
                 eev, _, edst, ereal, alias = entries[0]
                 reads = [e for e in v.trace if e.kind == "raw_read" and e.idx < eev.idx]
                 rd = [e for e in reads if same_expr(e.extra["src"].e, ereal.e)]
